@@ -28,11 +28,13 @@ pub struct FCase {
     pub kind: u8,
     /// a seek hit by a fault moves the position before it reports the error
     pub seek_moves: bool,
+    /// the history ends with the consuming write_shapes(self, [shape c]) instead of a plain drop
+    pub consume: bool,
 }
 
 impl FCase {
     pub fn to_json(&self) -> Value {
-        json!({"fault_run": {"ty": self.ty.name(), "other": self.other.map(|t| t.name()), "with_shx": self.with_shx, "ops": ops_name(&self.ops), "panic_drop": self.panic_drop, "zero_writes": self.zero_writes, "kind": format!("{:?}", crate::dev::ALL_KINDS[self.kind as usize]), "seek_moves": self.seek_moves,
+        json!({"fault_run": {"ty": self.ty.name(), "other": self.other.map(|t| t.name()), "with_shx": self.with_shx, "ops": ops_name(&self.ops), "panic_drop": self.panic_drop, "zero_writes": self.zero_writes, "kind": format!("{:?}", crate::dev::ALL_KINDS[self.kind as usize]), "seek_moves": self.seek_moves, "consume": self.consume,
             "faults": self.faults.iter().map(|(d, k)| json!([(["shp", "shx"][*d as usize]), k])).collect::<Vec<_>>()}})
     }
     pub fn from_json(v: &Value) -> Option<FCase> {
@@ -46,6 +48,7 @@ impl FCase {
             zero_writes: f.get("zero_writes").and_then(|x| x.as_bool()).unwrap_or(false),
             kind: f.get("kind").and_then(|x| x.as_str()).and_then(|n| crate::dev::ALL_KINDS.iter().position(|k| format!("{:?}", k) == n)).unwrap_or(0) as u8,
             seek_moves: f.get("seek_moves").and_then(|x| x.as_bool()).unwrap_or(false),
+            consume: f.get("consume").and_then(|x| x.as_bool()).unwrap_or(false),
             faults: f.get("faults")?.as_array()?.iter().map(|x| Some((if x.get(0)?.as_str()? == "shp" { 0u8 } else { 1u8 }, x.get(1)?.as_u64()?))).collect::<Option<Vec<_>>>()?,
         })
     }
@@ -73,12 +76,17 @@ pub struct FRun {
     pub finalized: Vec<(usize, usize)>,
     /// .shx log entries at the same moments
     pub finalized_shx: Vec<usize>,
+    /// the history ended with the consuming write_shapes
+    pub consumed: bool,
 }
 
 impl FRun {
     /// no fault fired during the final drop (which cannot report one and would leave the files incomplete)
     pub fn drop_undisturbed(&self, n_ops: usize) -> bool {
-        self.fired.iter().all(|c| (*c as usize) < n_ops)
+        // (the consuming write_shapes that may end a history is call n_ops; the writer is dropped inside it: a fault
+        // during that call was in its writes if the call returned an error, in the unreportable drop otherwise)
+        let ending_reported = self.consumed && matches!(self.results.get(n_ops), Some(CallRes::Err(_)));
+        self.fired.iter().all(|c| (*c as usize) < n_ops || ((*c as usize) == n_ops && ending_reported))
     }
     pub fn all_fired(&self, case: &FCase) -> bool {
         let fired = self.shp_log.iter().chain(self.shx_log.iter()).filter(|o| matches!(o, Op::Failed { .. })).count();
@@ -104,7 +112,8 @@ pub fn run(pal: &Palette, case: &FCase) -> FRun {
     let mut finalized = vec![];
     let mut finalized_shx = vec![];
     let envr = &env;
-    let results = exec_writer(pal, &case.ops, if case.panic_drop { Ending::DropWhilePanicking } else { Ending::Drop }, &env, |_, op, r| match (op, r) {
+    let ending = if case.consume { Ending::WriteShapes(1) } else if case.panic_drop { Ending::DropWhilePanicking } else { Ending::Drop };
+    let results = exec_writer(pal, &case.ops, ending, &env, |_, op, r| match (op, r) {
         (WOp::W(k), CallRes::Ok) => accepted.push(k),
         (WOp::F, CallRes::Ok) => {
             finalized.push((envr.shp.log_len(), accepted.len()));
@@ -117,11 +126,15 @@ pub fn run(pal: &Palette, case: &FCase) -> FRun {
     let mut fired: Vec<u32> = shp_log.iter().chain(shx_log.iter()).filter_map(|o| if let Op::Failed { call, .. } = o { Some(*call) } else { None }).collect();
     fired.sort_unstable();
     let n = case.ops.len();
-    if fired.iter().all(|c| (*c as usize) < n) {
+    if case.consume && results.get(n) == Some(&CallRes::Ok) {
+        accepted.push(2);
+    }
+    let ending_reported = case.consume && matches!(results.get(n), Some(CallRes::Err(_)));
+    if fired.iter().all(|c| (*c as usize) < n || ((*c as usize) == n && ending_reported)) {
         finalized.push((shp_log.len(), accepted.len()));
         finalized_shx.push(shx_log.len());
     }
-    FRun { finalized_shx, results, fired, shp: env.shp.data(), shx: env.shx.as_ref().map(|x| x.data()).unwrap_or_default(), shp_log, shx_log, accepted, finalized }
+    FRun { consumed: case.consume, finalized_shx, results, fired, shp: env.shp.data(), shx: env.shx.as_ref().map(|x| x.data()).unwrap_or_default(), shp_log, shx_log, accepted, finalized }
 }
 
 /// The part of a destination its header declares (a `Write + Seek` destination cannot be truncated: what a
@@ -135,7 +148,7 @@ pub fn declared(b: &[u8]) -> &[u8] {
 /// little beyond the fault-free log, because a failed call changes what follows.  Runs in which not every
 /// planned fault fired are single-fault (or fault-free) runs and are not reported.
 pub fn for_each(ty: Ty, other: Option<Ty>, with_shx: bool, ops: &[WOp], pairs: bool, mut f: impl FnMut(&Palette, &FCase, &FRun)) {
-    let mut case = FCase { ty, other, with_shx, ops: ops.to_vec(), faults: vec![], panic_drop: false, zero_writes: false, kind: 0, seek_moves: false };
+    let mut case = FCase { ty, other, with_shx, ops: ops.to_vec(), faults: vec![], panic_drop: false, zero_writes: false, kind: 0, seek_moves: false, consume: false };
     let pal = case.palette();
     let base = run(&pal, &case);
     // no fault, but the writer is dropped while the caller's panic unwinds
@@ -143,6 +156,23 @@ pub fn for_each(ty: Ty, other: Option<Ty>, with_shx: bool, ops: &[WOp], pairs: b
     let unwound = run(&pal, &case);
     f(&pal, &case, &unwound);
     case.panic_drop = false;
+    // the history ended by the consuming write_shapes, under every single fault (its own operations included)
+    if ops.len() <= 2 {
+        case.consume = true;
+        let b2 = run(&pal, &case);
+        f(&pal, &case, &b2);
+        for (d, l) in [(0u8, b2.shp_log.len() as u64 + 4), (1u8, if with_shx { b2.shx_log.len() as u64 + 4 } else { 0 })] {
+            for k in 0..l {
+                case.faults = vec![(d, k)];
+                let r = run(&pal, &case);
+                if r.all_fired(&case) {
+                    f(&pal, &case, &r);
+                }
+            }
+        }
+        case.faults = vec![];
+        case.consume = false;
+    }
     let l0 = base.shp_log.len() as u64 + 6;
     let l1 = if with_shx { base.shx_log.len() as u64 + 6 } else { 0 };
     let mut plans: Vec<Vec<(u8, u64)>> = vec![];
